@@ -498,7 +498,7 @@ def run(tier, seed):
     # 6. tracks with an instrument and tracks built by from_chords (split chords)
     # =========================================================================================================
     G = "Track built by from_chords"
-    chord_lists = [["C", "G7"], ["Am", ["Dm", "G7"], "C"], ["F", None, "G"], [["C", "F"], ["G", "C"]]]
+    chord_lists = [["C", "G7"], ["Am", ["Dm", "G7"], "C"], ["F", None, "G"], [["C", "F"], ["G", "C"]], ["C", "F", "G", "C"]]
     cases = []
     for prefix in [(), (2,), (4,), (2, 4), (4, 4, 4), (8,), (2, 8)]:
         for chords in chord_lists:
@@ -525,6 +525,17 @@ def run(tier, seed):
                     nids = [id(n) for b in t.bars for e in b.bar if e[2] is not None for n in e[2].notes]
                     if len(nids) == len(set(nids)):
                         return None
+                    # the listed finding is about ONE situation: the two pieces of a chord split across a bar line
+                    # (last entry of a bar, first entry of the next) hold the same container.  Any other sharing
+                    # (the same container placed for a repeated chord name, say) is not that finding.
+                    flat = [(bi, ei, e) for bi, b in enumerate(t.bars) for ei, e in enumerate(b.bar) if e[2] is not None]
+                    for i in range(len(flat)):
+                        for j in range(i + 1, len(flat)):
+                            if flat[i][2][2] is flat[j][2][2]:
+                                (b1, e1, _), (b2, e2, _) = flat[i], flat[j]
+                                split_pair = (b2 == b1 + 1 and e1 == len(t.bars[b1].bar) - 1 and e2 == 0)
+                                if not split_pair:
+                                    return None
                     return ("from-chords-split-shares-container", [nids.count(i) for i in nids])
                 check_op(G, "track", t, op, (prefix, chords, dur, op), finding_if=shared)
     G = "Track with instrument"
